@@ -33,5 +33,7 @@ for t in spec["theorems"]:
     body += "Print Assumptions %s.\n" % t["name"]
 if spec.get("example_name"):
     body += "Print Assumptions %s.\n" % spec["example_name"]
+for n in spec.get("example_names", []):
+    body += "Print Assumptions %s.\n" % n
 open(os.path.join(COQ, "Props", pid + ".v"), "w").write(body)
 print("wrote Props/%s.v with %d theorems" % (pid, len(spec["theorems"])))
